@@ -72,8 +72,68 @@ func fnKey(fn *ssa.Function) string {
 	return fn.String()
 }
 
+// formatters: stubs of functions that format their variadic arguments.  The formatting itself is not
+// modelled, but String() / Error() methods the module defines on those arguments are run first (fmt calls
+// them for %s / %v), so that what they do - a write to shared state, say - is part of the path.
+var formatters = map[string]bool{
+	"github.com/pkg/errors.Errorf": true, "github.com/pkg/errors.Wrapf": true, "fmt.Errorf": true, "fmt.Sprintf": true,
+	"fmt.Sprint": true, "fmt.Sprintln": true, "fmt.Printf": true, "fmt.Println": true,
+}
+
+func (ex *Exec) touchStringers(st *State, fr *Frame, x *ssa.Call, args []Value) bool {
+	if len(args) == 0 {
+		return false
+	}
+	for _, f := range st.frames {
+		if f.retry {
+			return false // formatting inside a String method that is itself run for a formatter: not followed
+		}
+	}
+	va, ok := args[len(args)-1].(*SliceVal)
+	if !ok || va.obj == 0 {
+		return false
+	}
+	o := st.obj(va.obj)
+	if o.kind != objArr {
+		return false
+	}
+	off, ok1 := concreteInt(va.off)
+	n, ok2 := concreteInt(va.len)
+	if !ok1 || !ok2 {
+		return false
+	}
+	for i := fr.touch[x]; i < n; i++ {
+		iv, ok := o.elems[off+i].(*IfaceVal)
+		if !ok || iv.typ == nil || iv.typ == ex.opaqueT || iv.typ == ex.extT {
+			continue
+		}
+		for _, name := range []string{"Error", "String"} {
+			sel := ex.prog.MethodSets.MethodSet(iv.typ).Lookup(nil, name)
+			if sel == nil {
+				continue
+			}
+			m := ex.prog.MethodValue(sel)
+			if m == nil || m.Blocks == nil || m.Pkg == nil || !isRepoPkg(m.Pkg.Pkg) || len(m.Params) != 1 {
+				continue
+			}
+			if fr.touch == nil {
+				fr.touch = map[ssa.Instruction]int{}
+			}
+			fr.touch[x] = i + 1
+			ex.pushFrame(st, m, []Value{iv.val}, nil, x)
+			st.top().retry = true
+			return true
+		}
+	}
+	delete(fr.touch, x)
+	return false
+}
+
 func (ex *Exec) callFunction(st *State, fr *Frame, x *ssa.Call, fn *ssa.Function, args []Value, bindings []Value) bool {
 	key := fnKey(fn)
+	if x != nil && formatters[key] && ex.touchStringers(st, fr, x, args) {
+		return true
+	}
 	if f, ok := intrinsics[key]; ok {
 		fr.env[x] = f(ex, st, fr, x, args)
 		return false
